@@ -299,7 +299,7 @@ def syn_likelihood_misspec(ssx, ssy, gamma, adjustment):
     """
     ssy = np.squeeze(ssy)
     sample_mean = ssx.mean(0)
-    sample_cov = np.cov(ssx, rowvar=False)
+    sample_cov = np.atleast_2d(np.cov(ssx, rowvar=False))
     std = np.sqrt(np.diag(sample_cov))
 
     if adjustment == "mean":
